@@ -4,3 +4,4 @@ pub mod farm_replay;
 pub mod pool;
 pub mod auth;
 pub mod fault;
+pub mod pool_replay;
